@@ -448,6 +448,9 @@ func Finish(m *Monitor, env *Env, sum *Summary, wall time.Duration) int {
 			fmt.Printf("  violation class=%s case=%d: %s\n", w.Class, w.Index, w.Reason)
 			fmt.Printf("VIOLATION property=%s replay=%s\n", m.ID, path)
 		}
+		if len(printed) == 0 { // cannot happen while witnesses are kept per class; never exit 1 without the line
+			fmt.Printf("VIOLATION property=%s replay=%s\n", m.ID, filepath.Join(env.VerifDir, "evidence", m.ID+".json"))
+		}
 		fmt.Printf("  %d violating cases in total; by class: %v\n", unlistedCount, sum.ByClass)
 		return 1
 	}
